@@ -57,6 +57,19 @@ CHECKS = {
         technique='symbolic execution of the real Python code (CrossHair/z3), per-condition solver verdict',
         engine='E1',
     ),
+    'C09': dict(
+        category='other',
+        text=('Inductive step of the real Parser facade under CrossHair + z3: symbolic pre-state (path, entry, safety flag, all dirty flags, '
+              'cached text) constrained only by the cache invariant, one call of each facade method with a symbolic argument, postcondition = '
+              'invariant preserved and get/write return/write exactly F(current settings) or raise exactly when F raises. Because Parser() '
+              'satisfies the invariant this covers call histories of any length. The translation chain is replaced by the pure stub F.'),
+        design_ref='DESIGN.md section 6 / C09',
+        note=('Excel/Context/CellTranslator and open() are stubs (part of the claim). The second sentence of the property (byte-identical text across '
+              'processes, hash seeds, earlier translations, threads) is NOT decided by this technique; only one concrete same-process history '
+              'differential on the real chain is run and labelled concrete.'),
+        technique='symbolic execution of the real Python code (CrossHair/z3): inductive step over a symbolic pre-state',
+        engine='E1',
+    ),
 }
 
 NOT_YET = {}   # filled below for every property without a check
